@@ -241,6 +241,110 @@ def h_prior_step(ctx, config, em_maxitt):
     ctx.tag("prior-step")
 
 
+class _Desync(Exception):
+    pass
+
+
+def h_like_step(ctx, config, order, unphased=False):
+    """One propagate_likelihood call from an arbitrary valid EP state and from the same state in
+    another time unit.  The moment functions are stubs: in the first run 'NaN or arbitrary', in
+    the second run the k-th call returns the first run's k-th result in the new unit (means * c,
+    variances * c^2) - which is what h_moments proves of the real functions PROVIDED the
+    arguments correspond, and that correspondence is an obligation here."""
+    from symx.dom import sym, Q, choice, fresh
+    from checks import ep_cases
+    c = sym("c", "pos")
+    rec = {"run": 0, "calls": ([], [])}
+
+    def make(name):
+        kinds, outs = SIG[name]
+
+        def stub(*args):
+            r = rec["run"]
+            k = len(rec["calls"][r])
+            if r == 0:
+                if choice(f"skip_{name}_{k}_"):
+                    out = tuple([math.nan] * len(outs))
+                else:
+                    out = tuple(fresh(f"{name}_{k}_r{i}_") for i in range(len(outs)))
+                rec["calls"][0].append((name, args, out))
+                return out
+            rec["calls"][1].append((name, args))
+            if k >= len(rec["calls"][0]) or rec["calls"][0][k][0] != name:
+                raise _Desync(name)
+            out0 = rec["calls"][0][k][2]
+            if _isnan(out0[0]):
+                return out0
+            return tuple(o if kd in "lp" else (o * c if kd == "m" else o * c * c)
+                         for o, kd in zip(out0, outs))
+        return stub
+
+    with ep_h.patched_ep() as (var_, approx, npx):
+        saved = {nm: getattr(approx, nm) for nm in ep_cases.NODE_MOMENTS}
+        for nm in saved:
+            setattr(approx, nm, make(nm))
+        try:
+            var, st, max_shape, min_step = ep_cases._common(ctx, config, "I", tiny=False)
+            if unphased:
+                ep, ec = st.bj, st.bk
+                lik = ep_cases._liks("b", len(st.blocks))
+            else:
+                ep, ec = st.ep, st.ec
+                lik = ep_cases._liks("e", len(st.edges))
+            for i in range(st.n):
+                if not st.fixed[i]:
+                    ctx.assume(st.posterior[i, 0] + 1 <= max_shape)
+            st2 = _scaled_state(st, c)
+            cons2 = st.constraints.copy()
+            for i in range(st.n):
+                if st.fixed[i]:
+                    cons2[i, 0] = cons2[i, 0] * c if not isinstance(cons2[i, 0], float) else cons2[i, 0] * 1.0
+                    cons2[i, 1] = cons2[i, 1] * c if not isinstance(cons2[i, 1], float) else cons2[i, 1] * 1.0
+            lik2 = lik.copy()
+            for e in range(lik.shape[0]):
+                lik2[e, 1] = lik[e, 1] / c
+            try:
+                var.ExpectationPropagation.propagate_likelihood(
+                    np.array(order, dtype=np.int32), ep, ec, lik, st.constraints, st.posterior,
+                    st.factors, npx.zeros(len(ep)), max_shape, min_step, unphased)
+                rec["run"] = 1
+                var.ExpectationPropagation.propagate_likelihood(
+                    np.array(order, dtype=np.int32), ep, ec, lik2, cons2, st2.posterior,
+                    st2.factors, npx.zeros(len(ep)), max_shape, min_step, unphased)
+            except _Desync as e:
+                ctx.fail("like_step:same_sequence_of_moment_calls", detail={"second_run_called": str(e)})
+                return
+            except Exception as e:
+                ctx.fail("no-exception", detail={"exception": repr(e)[:300], "run": rec["run"]})
+                return
+        finally:
+            for nm, f in saved.items():
+                setattr(approx, nm, f)
+    c0, c1 = rec["calls"]
+    ctx.prove("like_step:same_number_of_moment_calls", len(c0) == len(c1))
+    for k, ((nm, a0, _), (nm1, a1)) in enumerate(zip(c0, c1)):
+        for j, kd in enumerate(SIG[nm][0]):
+            x0, x1 = Q.of(a0[j]), Q.of(a1[j])
+            if kd in "sy":
+                ctx.prove(f"like_step:call{k}:{nm}:arg{j}_same", x1 == x0)
+            elif kd == "r":
+                ctx.prove(f"like_step:call{k}:{nm}:arg{j}_rate_divided_by_c", x1 * c == x0)
+            else:
+                ctx.prove(f"like_step:call{k}:{nm}:arg{j}_age_times_c", x1 == x0 * c)
+    for i in range(st.n):
+        if st.fixed[i]:
+            continue
+        ctx.prove(f"like_step:node[{i}]:shape_same", Q.of(st2.posterior[i, 0]) == Q.of(st.posterior[i, 0]))
+        ctx.prove(f"like_step:node[{i}]:rate_divided_by_c", Q.of(st2.posterior[i, 1]) * c == Q.of(st.posterior[i, 1]))
+        ctx.prove(f"like_step:node[{i}]:scale_same", Q.of(st2.factors.scale[i]) == Q.of(st.factors.scale[i]))
+    arr1 = st.factors.block if unphased else st.factors.edge
+    arr2 = st2.factors.block if unphased else st2.factors.edge
+    for idx in np.ndindex(arr1.shape):
+        ctx.prove(f"like_step:message{list(idx)}",
+                  Q.of(arr2[idx]) * (c if idx[-1] == 1 else 1) == Q.of(arr1[idx]))
+    ctx.tag("like-step")
+
+
 def h_damp(ctx):
     from symx.dom import sym, Q
     c = sym("c", "pos")
@@ -427,6 +531,15 @@ def cases(tier):
     for nm in PROJ:
         cs.append(Case(f"projection:{nm}", h_projection, dict(name=nm), weight=5))
     cs.append(Case("damp_rescale", h_damp, {}))
+    for cfg, order, unph in (("chain", [0], False), ("hist", [2], False), ("fixed_parent", [2], False),
+                             ("blocks", [1], True), ("block_fixed", [0], True)) + \
+            ((("chain", [3], False), ("blocks", [0], True)) if tier == "thorough" else ()):
+        kw = dict(config=cfg, order=order, unphased=unph)
+        if cfg == "chain" and order == [3]:
+            cs.append(Case(f"like_step:{cfg}:e3", h_like_step, kw, weight=200, shard_depth=5))
+        else:
+            cs.append(Case(f"like_step:{cfg}:{'b' if unph else 'e'}{order[0]}", h_like_step, kw,
+                           weight=60))
     for cfg, k in (("chain", 0), ("chain", 1), ("blocks", 1)) + \
             ((("chain", 2), ("hist", 1)) if tier == "thorough" else ()):
         cs.append(Case(f"prior_step:{cfg}:em{k}", h_prior_step, dict(config=cfg, em_maxitt=k),
@@ -466,7 +579,7 @@ def run(tier, seed, t0):
         "InsideOutsideMethod.run / MaximizationMethod.run in both probability spaces: posterior means "
         "* c, variances * c^2.",
         functions=["tsdate.approx.*_moments (14)", "tsdate.approx.*_projection (14)",
-                   "tsdate.variational.ExpectationPropagation.propagate_prior", "tsdate.variational._damp/_rescale",
+                   "tsdate.variational.ExpectationPropagation.propagate_likelihood/propagate_prior", "tsdate.variational._damp/_rescale",
                    "tsdate.util._constrain_ages", "tsdate.rescaling.mutational_timescale/"
                    "mutational_area/_fixed_changepoints/piecewise_scale_point_estimate",
                    "tsdate.demography.PopulationSizeHistory", "tsdate.core.InsideOutsideMethod.run/"
@@ -485,6 +598,7 @@ def run(tier, seed, t0):
                       "and is covered only through the replays"],
         validated=npx.validate(),
         expect_tags=["valid", "skip", "constrain", "timescale", "popsize", "prior-step", "damp",
+                     "like-step",
                      "discrete-inside_outside",
                      "discrete-maximization"],
     )
